@@ -67,6 +67,11 @@ fn run_one(fx: Arc<Fixt>, class: &str, idx: usize, seed: u64, calls_path: &Path,
             h.step(c);
         }
         h.finish();
+    } else if class == "canary" {
+        // engine self-check: a deliberately leaked block must be reported by the leak check
+        let v = std::hint::black_box(vec![0x5au8; 4096]);
+        std::mem::forget(v);
+        h.finish();
     } else if class == "directed" {
         gen::directed(&mut h, gen::DIRECTED[idx]);
     } else {
@@ -108,7 +113,13 @@ fn child_main(args: &[String]) -> ! {
     let tmp = scratch.join("base");
     let _ = std::fs::create_dir_all(&tmp);
     let mut fx = Fixt::base(tmp.to_str().unwrap_or("/tmp"));
-    let g = std::thread::scope(|s| s.spawn(|| gen::golden(&mut fx)).join());
+    // The golden path runs once per engine run; later children of the same run load its products.
+    let cache = arg_val(args, "--golden-cache").map(PathBuf::from);
+    let cached = cache.as_ref().map(|c| load_golden(c, &mut fx)).unwrap_or(false);
+    let g = if cached { Ok(Ok(Vec::new())) } else { std::thread::scope(|s| s.spawn(|| gen::golden(&mut fx)).join()) };
+    if let (false, Some(c), Ok(Ok(_))) = (cached, cache.as_ref(), &g) {
+        store_golden(c, &fx);
+    }
     match g {
         Ok(Ok(v)) => {
             for x in v {
@@ -199,6 +210,36 @@ fn child_main(args: &[String]) -> ! {
     std::process::exit(0);
 }
 
+fn load_golden(dir: &Path, fx: &mut Fixt) -> bool {
+    if !dir.join("ok").exists() {
+        return false;
+    }
+    let rd = |n: &str| std::fs::read(dir.join(n)).ok();
+    let (Some(signed), Some(archive), Some(manifest), Some(uri)) = (rd("signed.bin"), rd("archive.bin"), rd("manifest.bin"), rd("uri.txt")) else { return false };
+    let Ok(uri) = std::ffi::CString::new(uri) else { return false };
+    fx.contents.insert("signed".into(), signed);
+    fx.contents.insert("archive".into(), archive);
+    fx.bufs.insert("mb:ok".into(), manifest);
+    fx.strings.insert("uri:thumb".into(), uri);
+    true
+}
+
+fn store_golden(dir: &Path, fx: &Fixt) {
+    let _ = std::fs::create_dir_all(dir);
+    let pid = std::process::id();
+    let put = |n: &str, b: &[u8]| {
+        let t = dir.join(format!("{n}.{pid}.tmp"));
+        if std::fs::write(&t, b).is_ok() {
+            let _ = std::fs::rename(&t, dir.join(n));
+        }
+    };
+    put("signed.bin", &fx.contents["signed"]);
+    put("archive.bin", &fx.contents["archive"]);
+    put("manifest.bin", &fx.bufs["mb:ok"]);
+    put("uri.txt", fx.strings["uri:thumb"].as_bytes());
+    put("ok", b"ok");
+}
+
 fn tail(s: &str, n: usize) -> String {
     if s.len() <= n {
         s.to_string()
@@ -238,6 +279,8 @@ fn first_repo_frame(rep: &str) -> Option<String> {
 
 #[derive(Clone)]
 struct Engine {
+    /// directory shared by the children of one engine run (golden-path products)
+    cache: PathBuf,
     name: &'static str,
     exe: PathBuf,
     prefix: Vec<String>,
@@ -376,6 +419,7 @@ fn run_shard(eng: &Engine, class: &str, lo: usize, hi: usize, seed: u64, replay_
         if let Some(p) = replay_calls {
             cmd.arg("--replay-calls").arg(p);
         }
+        cmd.arg("--golden-cache").arg(&eng.cache);
         for (k, v) in &eng.env {
             cmd.env(k, v);
         }
@@ -553,14 +597,15 @@ fn main() {
     ];
     let root = vmon::evidence::verif_root();
     let self_exe = std::env::current_exe().expect("current exe");
-    let release = Engine { name: "release", exe: self_exe.clone(), prefix: vec![], env: vec![], slow: 1 };
+    let cache_root = tempfile::Builder::new().prefix("c31-golden-").tempdir().expect("scratch dir");
+    let release = Engine { cache: cache_root.path().join("release"), name: "release", exe: self_exe.clone(), prefix: vec![], env: vec![], slow: 1 };
     let asan_exe = root.join(".build/asan/x86_64-unknown-linux-gnu/release/c31");
     let asan_env = vec![
         ("ASAN_OPTIONS".to_string(), "detect_leaks=1:halt_on_error=1:exitcode=97:abort_on_error=0:symbolize=1:leak_check_at_exit=0:allocator_may_return_null=1:handle_abort=1".to_string()),
         ("LSAN_OPTIONS".to_string(), "exitcode=0:print_suppressions=0".to_string()),
         ("ASAN_SYMBOLIZER_PATH".to_string(), "/usr/bin/llvm-symbolizer".to_string()),
     ];
-    let asan = Engine { name: "asan", exe: asan_exe.clone(), prefix: vec![], env: asan_env, slow: 6 };
+    let asan = Engine { cache: cache_root.path().join("asan"), name: "asan", exe: asan_exe.clone(), prefix: vec![], env: asan_env, slow: 6 };
 
     // ---- replay -----------------------------------------------------------------------
     if let Some(p) = run.replay.clone() {
@@ -642,11 +687,17 @@ fn main() {
             let n_asan = run.tier.pick(300usize, 10_000);
             let per = ((n_asan + jobs * 2 - 1) / (jobs * 2)).max(1);
             let mut d = Vec::new();
+            let canary = run_shard(&asan, "canary", 0, 1, run.seed, None);
+            let leak_ok = canary.viols.iter().any(|(s, _, _)| s.starts_with("leak|"));
+            run.count("asan:leak_canary_detected", leak_ok as u64);
+            if !leak_ok {
+                run.inconclusive("engine asan: the LeakSanitizer canary (a deliberately leaked block) was not reported; leak detection is not effective in this environment, UAF / double-free detection is unaffected");
+            }
             let o = run_engine(&asan, "directed", gen::DIRECTED.len(), 1, run.seed);
             d.push(fold(&mut run, &asan, "directed", o, false));
             let o = run_engine(&asan, "main", n_asan, per, run.seed ^ 0xA5A5);
             d.push(fold(&mut run, &asan, "main", o, false));
-            run.engine("asan", true, json!({"runs": d, "binary": asan_exe, "leak_check": "LSan after every history"}));
+            run.engine("asan", true, json!({"runs": d, "binary": asan_exe, "leak_check": "LSan after every history", "leak_canary_detected": leak_ok}));
         } else {
             run.inconclusive(format!("engine asan: {why}"));
             run.engine("asan", false, json!({"reason": why}));
@@ -662,6 +713,7 @@ fn main() {
         let vg = Path::new("/usr/bin/valgrind");
         if vg.exists() {
             let memcheck = Engine {
+                cache: cache_root.path().join("memcheck"),
                 name: "memcheck",
                 exe: self_exe.clone(),
                 prefix: vec![vg.display().to_string(), "-q".into(), "--error-exitcode=99".into(), "--exit-on-first-error=yes".into(), "--leak-check=no".into(), "--undef-value-errors=no".into(), "--log-file={SCRATCH}/stderr.txt".into()],
